@@ -84,6 +84,8 @@ class Program:
 
         def member(k):
             if k.excl is not None:
+                if k.excl[0] == 'EMBED_UNEXPORTED':
+                    return '\t%s' % k.name  # embedded struct whose type name is unexported
                 tag = (' `parquet:"%s"`' % k.excl[1]) if k.excl[1] else ''
                 return '\t%s %s%s' % (k.name, k.excl[0], tag)
             pre = {'req': '', 'opt': '*', 'rep': '[]'}[k.rep]
@@ -100,6 +102,9 @@ class Program:
                 if k.kids is not None and k.excl is None:
                     walk(k.gotype, k.kids)
         walk(self.root, self.kids)
+        for k in self.all_members():
+            if k.excl and k.excl[0] == 'EMBED_UNEXPORTED':
+                types.append('type %s struct {\n\tRev int32\n\tWho string\n}\n' % k.name)
         if any(k.excl and 'Unsupported' in k.excl[0] for k in self.all_members()):
             types.append('type Unsupported struct {\n\tZ map[string]chan int\n}\n')
         return '\n'.join(out + types)
@@ -272,6 +277,8 @@ class Program:
                         L.append('\tif a.%s != nil { return false }' % n)
                     elif t.startswith('struct{'):
                         L.append('\tok = vAnd(ok, a.%s.Q == 0)' % n)
+                    elif t == 'EMBED_UNEXPORTED':
+                        L.append('\tok = vAnd(ok, vAnd(a.%s.Rev == 0, a.%s.Who == ""))' % (n, n))
                     continue
                 if k.kids is None:
                     continue
@@ -306,6 +313,8 @@ class Program:
                         L.append('\ta.%s = map[string]int{"k": 1}' % n)
                     elif t.startswith('struct{'):
                         L.append('\ta.%s.Q = vNondetI32()' % n)
+                    elif t == 'EMBED_UNEXPORTED':
+                        L.append('\ta.%s.Rev = vNondetI32(); a.%s.Who = vFixedString(1)' % (n, n))
                     elif t == 'interface{}':
                         L.append('\ta.%s = 7' % n)
                     elif t == '*Unsupported':
@@ -514,6 +523,9 @@ def nested_specials():
     P['deep_req'] = Program('deep_req', [group('A', [group('B', [leaf('C', 'int32', tag='c')], tag='b')], tag='a')])
     P['deep_opt'] = Program('deep_opt', [group('A', [group('B', [group('C', [leaf('D', 'int32', 'opt', tag='d')], 'opt', tag='c'), leaf('E', 'string', tag='e')], 'opt', tag='b')], 'opt', tag='a'), leaf('Z', 'int64', tag='z')])
     P['deep_rep'] = Program('deep_rep', [group('A', [group('B', [leaf('C', 'int32', 'rep', tag='c')], 'rep', tag='b'), leaf('N', 'int64', tag='n')], 'rep', tag='a')])
+    # group paths whose names concatenate to the same string: a.b vs ab
+    P['concat1'] = Program('concat1', [leaf('Id', 'int64', tag='id'), group('A', [group('B', [leaf('X', 'int32', tag='x')], 'opt', tag='b')], tag='a'),
+                                       group('Ab', [leaf('Y', 'string', 'opt', tag='y'), leaf('Z', 'float64', tag='z')], 'opt', tag='ab')])
     P['two_groups'] = Program('two_groups', [group('G', [leaf('A', 'int32', tag='a'), leaf('B', 'string', 'opt', tag='b')], tag='g'), leaf('M', 'bool', tag='m'),
                                              group('H', [leaf('C', 'int64', 'rep', tag='c')], 'opt', tag='h')])
     return P
@@ -582,7 +594,7 @@ def shape_canon(shape):
 # -------------------------------------------------------------------- C14 decorations
 import copy
 
-EXCL_TYPES = ['int32', '*string', '[]byte', 'map[string]int', 'chan int', 'func(X int32) error', 'struct{ Q int32 }', 'interface{}', '*Unsupported']
+EXCL_TYPES = ['int32', '*string', '[]byte', 'map[string]int', 'chan int', 'func(X int32) error', 'struct{ Q int32 }', 'interface{}', '*Unsupported', 'EMBED_UNEXPORTED']
 
 
 def _clone(kids):
@@ -624,7 +636,9 @@ def decorate_excluded(base, name, where, idx, mode, gotype):
     tgt = kids
     for n in where:
         tgt = [k for k in tgt if k.name == n][0].kids
-    if mode == 'unexported':
+    if gotype == 'EMBED_UNEXPORTED':
+        ex = F('audit%d%s' % (idx, ''.join(where).lower()), excl=(gotype, None))
+    elif mode == 'unexported':
         ex = F('hidden' + str(idx), excl=(gotype, None))
     else:
         ex = F('Skipped' + str(idx), excl=(gotype, '-'))
